@@ -269,4 +269,7 @@ def run(ctx):
     ctx.do(r14_5)
     from . import c10
     ctx.do(c10.r10_4_units, modules=("mbox", "search"))
+    from . import c15 as _c15
+    ctx.do(_c15.r15_4)  # message-set keys denote what the set denotes everywhere
+    ctx.do(c10.r10_2)  # a STORE is not admitted beside a running SEARCH
     ctx.trust("frozen: RFC 3501 6.4.4 search key list; operator table BEFORE< ON== SINCE>= SENTBEFORE< SENTON== SENTSINCE>= LARGER> SMALLER<")
